@@ -12,6 +12,7 @@ import (
 	"os"
 	"os/exec"
 	"path/filepath"
+	"runtime/pprof"
 	"sort"
 	"strconv"
 	"strings"
@@ -26,6 +27,29 @@ import (
 func main() {
 	if len(os.Args) < 2 {
 		usage()
+	}
+	// a -race build reads the detector's reports from its log file: make sure
+	// there is one (replay, minimise and the coordinator's in-process minimiser)
+	if h.RaceBuild && !strings.Contains(os.Getenv("GORACE"), "log_path=") {
+		d, err := os.MkdirTemp("", "lssim-race-")
+		if err != nil {
+			fmt.Fprintln(os.Stderr, err)
+			os.Exit(2)
+		}
+		self, _ := os.Executable()
+		c := exec.Command(self, os.Args[1:]...)
+		c.Stdin, c.Stdout, c.Stderr = os.Stdin, os.Stdout, os.Stderr
+		c.Env = append(os.Environ(), "GORACE=log_path="+filepath.Join(d, "race")+" halt_on_error=0 history_size=7 suppress_equal_stacks=0 suppress_equal_addresses=0 exitcode=0")
+		err = c.Run()
+		os.RemoveAll(d)
+		if err != nil {
+			if ee, ok := err.(*exec.ExitError); ok {
+				os.Exit(ee.ExitCode())
+			}
+			fmt.Fprintln(os.Stderr, err)
+			os.Exit(2)
+		}
+		os.Exit(0)
 	}
 	switch os.Args[1] {
 	case "run":
@@ -154,8 +178,15 @@ func cmdWorker(args []string) int {
 	out := fs.String("out", ".", "")
 	deadline := fs.Float64("deadline", 0, "seconds (0 = none)")
 	maxViol := fs.Int("maxviol", 8, "stop after this many violating scenarios")
+	isolate := fs.Bool("isolate", h.RaceBuild, "run every scenario in a process of its own (race builds: detection must not depend on what ran before)")
+	single := fs.Int("single", -1, "run exactly this scenario index (used by -isolate)")
 	fs.Parse(args)
 
+	if pf := os.Getenv("LSSIM_CPUPROFILE"); pf != "" {
+		f, _ := os.Create(pf)
+		pprof.StartCPUProfile(f)
+		defer pprof.StopCPUProfile()
+	}
 	start := time.Now()
 	cov := h.NewCoverage()
 	w := &WorkerOut{Worker: *worker, LogHashes: map[string]string{}, InFlight: -1}
@@ -186,12 +217,18 @@ func cmdWorker(args []string) int {
 		os.Rename(tmp, filepath.Join(*out, fmt.Sprintf("worker-%d.json", *worker)))
 	}
 	nviol := 0
+	if *isolate && *single < 0 {
+		return isolatedWorker(*prop, *tier, *seed, *worker, *nworkers, *count, *out, *deadline, *maxViol)
+	}
 	for j := 0; j < *count; j++ {
 		if *deadline > 0 && time.Since(start).Seconds() > *deadline {
 			w.TimedOut = true
 			break
 		}
 		idx := *worker + *nworkers*j
+		if *single >= 0 {
+			idx = *single
+		}
 		sc := scen.Generate(*prop, *tier, *seed, idx)
 		// crash attribution: record what is in flight before running it
 		w.InFlight = idx
@@ -222,6 +259,151 @@ func cmdWorker(args []string) int {
 	return 0
 }
 
+// isolatedWorker runs each scenario in a child process and merges the reports.
+func isolatedWorker(prop, tier string, seed uint64, worker, nworkers, count int, out string, deadline float64, maxViol int) int {
+	start := time.Now()
+	self, _ := os.Executable()
+	tot := &WorkerOut{Worker: worker, ByKind: map[string]int64{}, Probes: map[string]int64{}, Fired: map[string]int64{}, LogHashes: map[string]string{}, InFlight: -1}
+	nt, st, il := map[string]bool{}, map[string]bool{}, map[string]bool{}
+	seen, nc := map[int]bool{}, map[int]bool{}
+	pol := make([]int64, 6)
+	for j := 0; j < count; j++ {
+		if deadline > 0 && time.Since(start).Seconds() > deadline {
+			tot.TimedOut = true
+			break
+		}
+		idx := worker + nworkers*j
+		sub := filepath.Join(out, fmt.Sprintf("iso-%d", idx))
+		os.MkdirAll(sub, 0o755)
+		c := exec.Command(self, "worker", "-property", prop, "-tier", tier, "-seed", strconv.FormatUint(seed, 10),
+			"-worker", "0", "-nworkers", "1", "-count", "1", "-single", strconv.Itoa(idx), "-out", sub, "-isolate=false")
+		c.Env = append(os.Environ(), "GORACE=log_path="+filepath.Join(sub, "race")+" halt_on_error=0 history_size=7 suppress_equal_stacks=0 suppress_equal_addresses=0 exitcode=0")
+		ob, err := c.CombinedOutput()
+		b, rerr := os.ReadFile(filepath.Join(sub, "worker-0.json"))
+		var w WorkerOut
+		if rerr == nil {
+			rerr = json.Unmarshal(b, &w)
+		}
+		if err != nil || rerr != nil {
+			fmt.Fprintf(os.Stderr, "lssim: isolated scenario %d failed: %v %v\n%s\n", idx, err, rerr, short(string(ob), 2000))
+			os.RemoveAll(sub)
+			return 3
+		}
+		tot.Scenarios += w.Scenarios
+		tot.Evaluations += w.Evaluations
+		tot.Checks += w.Checks
+		tot.Rounds += w.Rounds
+		tot.Switches += w.Switches
+		tot.Events += w.Events
+		tot.Sim.Tasks += w.Sim.Tasks
+		tot.Sim.Ticks += w.Sim.Ticks
+		tot.Sim.MapRanges += w.Sim.MapRanges
+		tot.Sim.NonCanonical += w.Sim.NonCanonical
+		for k, v := range w.ByKind { // maporder:ok
+			tot.ByKind[k] += v
+		}
+		for k, v := range w.Probes { // maporder:ok
+			tot.Probes[k] += v
+		}
+		for k, v := range w.Fired { // maporder:ok
+			tot.Fired[k] += v
+		}
+		for k, v := range w.LogHashes { // maporder:ok
+			tot.LogHashes[k] = v
+		}
+		for _, x := range w.NonTrivial {
+			nt[x] = true
+		}
+		for _, x := range w.States {
+			st[x] = true
+		}
+		for _, x := range w.Interleave {
+			il[x] = true
+		}
+		for _, x := range w.Sim.SitesSeen {
+			seen[x] = true
+		}
+		for _, x := range w.Sim.SitesNonCan {
+			nc[x] = true
+		}
+		for i, v := range w.Sim.PolicyUse {
+			pol[i] += v
+		}
+		if len(tot.Samples) < 4 {
+			tot.Samples = append(tot.Samples, w.Samples...)
+		}
+		tot.PkgVars = w.PkgVars
+		for _, v := range w.Violations {
+			dst := filepath.Join(out, filepath.Base(v.File))
+			os.Rename(v.File, dst)
+			v.File = dst
+			tot.Violations = append(tot.Violations, v)
+		}
+		os.RemoveAll(sub)
+		if len(tot.Violations) >= maxViol {
+			break
+		}
+	}
+	setKeys := func(m map[string]bool) []string {
+		o := make([]string, 0, len(m))
+		for k := range m { // maporder:ok (sorted below)
+			o = append(o, k)
+		}
+		sort.Strings(o)
+		return o
+	}
+	intKeys := func(m map[int]bool) []int {
+		o := make([]int, 0, len(m))
+		for k := range m { // maporder:ok (sorted below)
+			o = append(o, k)
+		}
+		sort.Ints(o)
+		return o
+	}
+	tot.NonTrivial, tot.States, tot.Interleave = setKeys(nt), setKeys(st), setKeys(il)
+	tot.Sim.SitesSeen, tot.Sim.SitesNonCan, tot.Sim.PolicyUse = intKeys(seen), intKeys(nc), pol
+	tot.WallS = time.Since(start).Seconds()
+	b, _ := json.MarshalIndent(tot, "", " ")
+	os.WriteFile(filepath.Join(out, fmt.Sprintf("worker-%d.json", worker)), b, 0o644)
+	return 0
+}
+
+// runFresh executes a scenario in a fresh process (race builds) and returns its violation.
+func runFresh(sc *h.Scenario) *h.Violation {
+	self, _ := os.Executable()
+	d, err := os.MkdirTemp("", "lssim-fresh-")
+	if err != nil {
+		return nil
+	}
+	defer os.RemoveAll(d)
+	f := filepath.Join(d, "sc.json")
+	sc.Save(f)
+	c := exec.Command(self, "replay", "-json", f)
+	c.Env = append(os.Environ(), "GORACE=log_path="+filepath.Join(d, "race")+" halt_on_error=0 history_size=7 suppress_equal_stacks=0 suppress_equal_addresses=0 exitcode=0")
+	ob, _ := c.Output()
+	i := bytes.Index(ob, []byte("VIOLATION-JSON "))
+	if i < 0 {
+		return nil
+	}
+	line := ob[i+len("VIOLATION-JSON "):]
+	if j := bytes.IndexByte(line, '\n'); j >= 0 {
+		line = line[:j]
+	}
+	var v h.Violation
+	if json.Unmarshal(line, &v) != nil {
+		return nil
+	}
+	return &v
+}
+
+// runner returns the scenario runner the minimiser should use.
+func runner() h.RunFunc {
+	if h.RaceBuild {
+		return runFresh
+	}
+	return func(s *h.Scenario) *h.Violation { _, vv := runScenario(s, nil, false); return vv }
+}
+
 // ---------------------------------------------------------------------------
 
 type Known struct {
@@ -250,8 +432,8 @@ func loadKnown(path string) *Known {
 
 // tier budgets: scenarios per worker
 func budget(prop, tier string) (count int, deadline float64) {
-	q := map[string]int{"C01": 10, "C03": 6}
-	t := map[string]int{"C01": 120, "C03": 80}
+	q := map[string]int{"C01": 5, "C02": 6, "C03": 6, "C04": 6, "C05": 30, "C06": 6, "C12": 8, "C13": 8, "C14": 8, "C18": 6}
+	t := map[string]int{"C01": 80, "C02": 60, "C03": 80, "C04": 60, "C05": 150, "C06": 60, "C12": 80, "C13": 80, "C14": 80, "C18": 60}
 	if tier == "thorough" {
 		if n, ok := t[prop]; ok {
 			return n, 1500
@@ -315,7 +497,7 @@ func cmdRun(args []string) int {
 			"-deadline", strconv.FormatFloat(deadline, 'f', 0, 64))
 		buf := &bytes.Buffer{}
 		c.Stdout, c.Stderr = buf, buf
-		c.Env = append(os.Environ(), "GOMAXPROCS=2", "GORACE=log_path="+filepath.Join(*out, fmt.Sprintf("race-%d", i))+" halt_on_error=0 history_size=7")
+		c.Env = append(os.Environ(), "GOMAXPROCS=2", "GORACE=log_path="+filepath.Join(*out, fmt.Sprintf("race-%d", i))+" halt_on_error=0 history_size=7 suppress_equal_stacks=0 suppress_equal_addresses=0 exitcode=0")
 		procs[i] = &proc{cmd: c, buf: buf}
 		if err := c.Start(); err != nil {
 			fmt.Fprintln(os.Stderr, "lssim: start worker:", err)
@@ -429,7 +611,11 @@ func cmdRun(args []string) int {
 	exit := 0
 	var knownSeen []string
 	nViolNew := 0
+	minBudget := 25 * time.Second
 	for _, v := range viols {
+		if nViolNew >= 3 {
+			minBudget = 5 * time.Second
+		}
 		if seenFP[v.Fingerprint] {
 			continue
 		}
@@ -452,7 +638,7 @@ func cmdRun(args []string) int {
 		if v.V.Clause == "fatal" {
 			sc.Save(dst)
 		} else {
-			min, mv := h.Minimise(sc, func(s *h.Scenario) *h.Violation { _, vv := runScenario(s, nil, false); return vv }, time.Now().Add(60*time.Second))
+			min, mv := h.Minimise(sc, runner(), time.Now().Add(minBudget))
 			if mv != nil {
 				min.Violation = mv
 				sc = min
@@ -460,7 +646,7 @@ func cmdRun(args []string) int {
 			sc.Save(dst)
 			// replay in a fresh process: must reproduce the same fingerprint
 			rc := exec.Command(self, "replay", dst)
-			rc.Env = append(os.Environ(), "GORACE=log_path="+filepath.Join(*out, "race-replay")+" halt_on_error=0 history_size=7")
+			rc.Env = append(os.Environ(), "GORACE=log_path="+filepath.Join(*out, "race-replay")+" halt_on_error=0 history_size=7 suppress_equal_stacks=0 suppress_equal_addresses=0 exitcode=0")
 			ob, _ := rc.CombinedOutput()
 			if !strings.Contains(string(ob), "fingerprint="+sc.Violation.Fingerprint) {
 				fmt.Fprintf(os.Stderr, "lssim: replay of %s did not reproduce %s:\n%s\n", dst, sc.Violation.Fingerprint, short(string(ob), 2000))
@@ -642,6 +828,7 @@ func fphash(fp string) string {
 func cmdReplay(args []string) int {
 	fs := flag.NewFlagSet("replay", flag.ExitOnError)
 	verbose := fs.Bool("v", false, "print the event log")
+	asJSON := fs.Bool("json", false, "print the violation as one JSON line")
 	fs.Parse(args)
 	if fs.NArg() != 1 {
 		fmt.Fprintln(os.Stderr, "usage: lssim replay [-v] <scenario.json>")
@@ -664,6 +851,10 @@ func cmdReplay(args []string) int {
 		}
 		return 0
 	}
+	if *asJSON {
+		b, _ := json.Marshal(v)
+		fmt.Printf("VIOLATION-JSON %s\n", b)
+	}
 	fmt.Printf("VIOLATION property=%s replay=%s\n  fingerprint=%s\n  detail: %s\n", v.Property, fs.Arg(0), v.Fingerprint, short(v.Detail, 3000))
 	if sc.Violation != nil && sc.Violation.Fingerprint != v.Fingerprint {
 		fmt.Printf("lssim: recorded fingerprint was %s\n", sc.Violation.Fingerprint)
@@ -685,7 +876,7 @@ func cmdMinimise(args []string) int {
 		fmt.Fprintln(os.Stderr, err)
 		return 2
 	}
-	min, v := h.Minimise(sc, func(s *h.Scenario) *h.Violation { _, vv := runScenario(s, nil, false); return vv }, time.Now().Add(time.Duration(*secs)*time.Second))
+	min, v := h.Minimise(sc, runner(), time.Now().Add(time.Duration(*secs)*time.Second))
 	if v == nil {
 		fmt.Println("lssim: scenario does not fail")
 		return 0
